@@ -71,8 +71,9 @@ static std::vector<double> slice(const std::vector<double> &v, const Parts &p) {
 
 // strip of a distributed matrix with global columns: local entries (shifted) then remote
 // entries, each in storage order ("assembled storage order"); canon: sorted by (col, value)
-static std::string show_strip(const DM &A, bool canon, long glob_cols) {
-    const Mat &L = *A.local(); const Mat &R = *A.remote();
+template <class DMT>
+static std::string show_strip(const DMT &A, bool canon, long glob_cols) {
+    const typename DMT::build_matrix &L = *A.local(); const typename DMT::build_matrix &R = *A.remote();
     long n = A.loc_rows(), shift = A.loc_col_shift();
     std::ostringstream os; os << "{" << n << " " << glob_cols;
     if ((long)L.nrows != n || (long)R.nrows != n) return "BADDM nrows";
@@ -82,12 +83,12 @@ static std::string show_strip(const DM &A, bool canon, long glob_cols) {
         if (L.ptr[i+1] < L.ptr[i] || R.ptr[i+1] < R.ptr[i]) return "BADDM ptr";
         for (ptrdiff_t j = L.ptr[i]; j < L.ptr[i+1]; ++j) {
             if (L.col[j] < 0 || L.col[j] >= (ptrdiff_t)L.ncols) return "BADDM local-col-out-of-range";
-            es.push_back(std::make_pair((long)L.col[j] + shift, show(L.val[j]))); }
+            es.push_back(std::make_pair((long)L.col[j] + shift, show((double)L.val[j]))); }
         for (ptrdiff_t j = R.ptr[i]; j < R.ptr[i+1]; ++j) {
             long c = R.col[j];
             if (c < 0 || c >= glob_cols) return "BADDM remote-col-out-of-range";
             if (c >= shift && c < shift + (long)L.ncols) return "BADDM remote-col-is-local";
-            es.push_back(std::make_pair(c, show(R.val[j]))); }
+            es.push_back(std::make_pair(c, show((double)R.val[j]))); }
         if (canon) std::sort(es.begin(), es.end());
         for (auto &e : es) os << " " << e.first << ":" << e.second;
     }
@@ -328,6 +329,105 @@ MOP(copyf) {
     std::vector<double> yd(y.begin(), y.end());
     std::ostringstream os; os << show(yd) << " " << F.glob_rows() << " " << F.glob_cols() << " " << F.glob_nonzeros();
     return os.str();
+}
+
+// ---------------------------------------------------------------- operation histories on ONE object (DistMove.v)
+// hist A rparts cparts B kparts x f nsteps step*  : D = distributed_matrix(A); then the steps, in order, on the SAME object:
+//   mv0 / mv1   D.move_to_backend(bprm, keep_src = false / true); prints which of A_loc A_rem a_loc a_rem exist and the size
+//               of the ghost vector C->x_rem
+//   dump        what local()/remote() return (strip in global numbering, storage order; "-" when released) and the two
+//               backend matrices (remote one with renumbered columns, ncols = recv.count())
+//   spmv / res  product / residual through the backend view ("NOBK" before the first mv)
+//   copyf       copy constructor to builtin<float>, move_to_backend(keep) there, product there, its kept source
+//   tr, prod (D*B), ata (D^T*D), rrt (remote_rows(D^T pattern, D)), g0 / g1 (Gershgorin), pw (power method: bitwise the
+//               same as on a freshly built, never moved object)           -- consumers of local()/remote(): "NOSRC" when released
+// Per-rank output: the step outputs joined by " / ".
+// Before a consumer that communicates, all ranks agree (Allreduce) that every remote column of the source is a key of
+// idx; if not (e.g. the kept source was renumbered in place) the history stops with "BADSRC": the real consumer would
+// throw std::out_of_range on that rank only and leave the other ranks waiting in MPI_Waitall.
+template <class DMT>
+static bool src_ok(const DMT &D) {
+    int ok = 1;
+    if (D.local() && D.remote()) {
+        const typename DMT::build_matrix &R = *D.remote();
+        for (size_t j = 0; j < R.nnz; ++j) { try { (void)D.cpat().local_index(R.col[j]); } catch (const std::out_of_range&) { ok = 0; } }
+    }
+    int all = 0; MPI_Allreduce(&ok, &all, 1, MPI_INT, MPI_MIN, world);
+    return all != 0;
+}
+template <class M> static std::string show_opt(const std::shared_ptr<M> &p) { return p ? vq::show_crs(*p, false) : std::string("-"); }
+
+MOP(hist) {
+    typedef amgcl::backend::builtin<float> FB;
+    auto A = t.crsT<double>(); Parts rp = parts(t), cp = parts(t);
+    auto B = t.crsT<double>(); Parts kp = parts(t);
+    std::vector<double> x = t.vecT<double>(), f = t.vecT<double>();
+    long ns = t.i(); std::vector<std::string> steps; for (long k = 0; k < ns; ++k) steps.push_back(t.s());
+    auto D = dist(*A, rp, cp);
+    std::vector<double> xl = slice(x, cp), fl = slice(f, rp);
+    long n = rp.n(world.rank);
+    std::string out;
+    for (size_t k = 0; k < steps.size(); ++k) {
+        const std::string &st = steps[k];
+        std::ostringstream os;
+        bool has_src = D->local() && D->remote();
+        bool needs_src = !(st == "mv0" || st == "mv1" || st == "dump" || st == "spmv" || st == "res");
+        if (st == "mv0" || st == "mv1") {
+            D->move_to_backend(Backend::params(), st == "mv1");
+            os << "mv" << (D->local_backend() ? 1 : 0) << (D->remote_backend() ? 1 : 0) << (D->local() ? 1 : 0) << (D->remote() ? 1 : 0)
+               << " x";
+            if (D->cpat().x_rem) os << D->cpat().x_rem->size(); else os << "-";
+        } else if (st == "dump") {
+            os << "src=";
+            if (has_src) os << show_strip(*D, false, cp.total);
+            else if (!D->local() && !D->remote()) os << "-";
+            else os << "HALF" << (D->local() ? 1 : 0) << (D->remote() ? 1 : 0);
+            os << " bk=" << show_opt(D->local_backend()) << "," << show_opt(D->remote_backend());
+        } else if (st == "spmv" || st == "res") {
+            if (!D->local_backend()) os << "NOBK";
+            else {
+                std::vector<double> y(n, NaN);
+                if (st == "spmv") amgcl::backend::spmv(1.0, *D, xl, 0.0, y); else amgcl::backend::residual(fl, *D, xl, y);
+                os << show(y);
+            }
+        } else if (needs_src && !has_src) {
+            os << "NOSRC";
+        } else if (!src_ok(*D)) {
+            out += (k ? " / " : "") + std::string("BADSRC"); break;
+        } else if (st == "tr") {
+            auto T = amgcl::mpi::transpose(*D);
+            os << show_strip(*T, false, rp.total) << " " << T->glob_rows() << " " << T->glob_cols() << " " << T->glob_nonzeros();
+        } else if (st == "prod") {
+            auto DB = dist(*B, cp, kp);
+            auto C = amgcl::mpi::product(*D, *DB);
+            os << show_strip(*C, false, kp.total) << " " << C->glob_rows() << " " << C->glob_cols() << " " << C->glob_nonzeros();
+        } else if (st == "ata") {
+            auto T = amgcl::mpi::transpose(*D);
+            auto C = amgcl::mpi::product(*T, *D);
+            os << show_strip(*C, false, cp.total) << " " << C->glob_rows() << " " << C->glob_cols() << " " << C->glob_nonzeros();
+        } else if (st == "rrt") {
+            auto T = amgcl::mpi::transpose(*D);
+            auto N = amgcl::mpi::remote_rows(T->cpat(), *D, true);
+            N->ncols = cp.total;
+            os << vq::show_crs(*N, false);
+        } else if (st == "copyf") {
+            amgcl::mpi::distributed_matrix<FB> F(*D);
+            F.move_to_backend(FB::params(), true);
+            std::vector<float> xf(xl.begin(), xl.end()), y(n, std::numeric_limits<float>::quiet_NaN());
+            amgcl::backend::spmv(1.0f, F, xf, 0.0f, y);
+            std::vector<double> yd(y.begin(), y.end());
+            os << show(yd) << " " << F.glob_rows() << " " << F.glob_cols() << " " << F.glob_nonzeros() << " " << show_strip(F, false, cp.total);
+        } else if (st == "g0" || st == "g1") {
+            double r = st == "g1" ? amgcl::backend::spectral_radius<true>(*D, 0) : amgcl::backend::spectral_radius<false>(*D, 0);
+            os << show(r);
+        } else if (st == "pw") {
+            auto D0 = dist(*A, rp, cp);
+            double r0 = amgcl::backend::spectral_radius<true>(*D0, 3), r1 = amgcl::backend::spectral_radius<true>(*D, 3);
+            if (std::memcmp(&r0, &r1, 8) == 0) os << "pw same"; else os << "pw DIFF " << r0 << " " << r1;
+        } else throw std::runtime_error("hist: unknown step " + st);
+        out += (k ? " / " : "") + os.str();
+    }
+    return out;
 }
 
 // ---------------------------------------------------------------- main loop
